@@ -517,7 +517,15 @@ where
                         use poulpy_core::layouts::GLWEToMut;
                         pk.to_mut().fill_uniform(64, &mut gsrc(g + 2));
                     }
-                    lib!("pk_generate", m.glwe_public_key_generate(&mut pk, &sk.prep, &enc, &mut xe, &mut xa));
+                    if r == Routine::GlwePk {
+                        // the public key is an *input* of public-key encryption: it is generated from fixed streams, so that
+                        // the seeds (a, e) of the case select the encryption's own randomness (u, errors) only
+                        let mut xe_pk = Source::new(seed_e(100));
+                        let mut xa_pk = Source::new(seed_a(100));
+                        lib!("pk_generate", m.glwe_public_key_generate(&mut pk, &sk.prep, &enc, &mut xe_pk, &mut xa_pk));
+                    } else {
+                        lib!("pk_generate", m.glwe_public_key_generate(&mut pk, &sk.prep, &enc, &mut xe, &mut xa));
+                    }
                     record_step("public_key", &ser(&pk), true);
                     if r == Routine::GlwePkGen {
                         if extras() {
